@@ -75,6 +75,8 @@ func (cx *Ctx) elemFieldOf(v ssa.Value) (slot *ssa.IndexAddr, field string) {
 
 func checkC16(cx *Ctx, r *Report) {
 	w, fx := cx.W, cx.Fx
+	// request data must not be shared between requests through recycled buffers (R-POOL, see C15)
+	cx.checkPoolEscape(r)
 	r.Clauses = []string{
 		"pairing / membership: wherever the selection assigns its two results they are assigned together, from the Location and Binding of the same element of the list passed in, or both stay empty",
 		"precedence and first match: an element is taken (1) under Binding == requested binding, leaving the loop at once; (2) only if (1) chose nothing, under isDefault being xs:boolean true, leaving the loop at once; (3) only if neither chose anything, when no candidate exists yet or its index is lower than the best so far - and the 'no candidate yet' test is not an equality with a value an index can take",
